@@ -47,6 +47,8 @@ func c05Drivers() []concParams {
 		// two readers sharing a one-block cache and the buffer pool (filter and data blocks evicted
 		// and their buffers reused while the other reader is still looking at them)
 		{Name: "readers-share-tiny-cache", Cfg: "tinybloom/bytewise", Pre: []string{"put:a", "put:b", "put:c", "cr", "q"}, Clients: [][]string{{"get:a", "get:c"}, {"get:b", "get:a", "get:c"}}, QB: 2, TB: 3, SQ: 1, ST: 2},
+		// the same with one reader that does not fill the caches (get-only cache lookups racing fills)
+		{Name: "nofill-reader-shares-tiny-cache", Cfg: "tinybloom/bytewise", Pre: []string{"put:a", "put:b", "put:c", "cr", "q"}, Clients: [][]string{{"getnf:a", "getnf:c", "get:a"}, {"get:b", "get:a", "get:c"}}, QB: 2, TB: 3},
 		// a range compaction (CompactRange gives the write lock back before it starts compacting)
 		// whose version edits are committed while a transaction commits its own
 		{Name: "compactrange-vs-transaction", Cfg: "flushy/bytewise", Pre: []string{"put:a", "put:b", "put:c"}, Clients: [][]string{{"cr"}, {"tr:+a,+b"}, {"get:a", "get:b", "get:c"}}, QB: 1, TB: 2, SQ: 1, ST: 1},
@@ -122,83 +124,78 @@ func runConcChecks(c *explore.Ctx, id string, drivers []concParams, bound int, p
 		return rank(drivers[i]) < rank(drivers[j])
 	})
 	hbWanted := explore.UseHB
-	for _, d := range drivers {
-		if !cfgSelected(d.Name) {
-			continue
-		}
-		// at statement granularity every point is a potential access to anything: the
-		// happens-before fingerprints cannot order them, the plain search is used
-		explore.UseHB = hbWanted && !d.Stmt
-		var completed = -1
-		var last *explore.DFSStats
-		bound := bound
+	wdoneBy := map[string]int{}
+	// two phases, so that a short time budget cuts depth and not breadth: first every driver up to
+	// bound 1 (a few hundred to a few thousand executions each), then every driver from bound 2 to
+	// its target, in the same order
+	type dstate struct {
+		completed int
+		last      *explore.DFSStats
+		stopped   bool // violation, nondeterminism or cap: no deeper bound for this driver
+		hbOff     bool
+	}
+	states := make([]*dstate, len(drivers))
+	target := func(d concParams) int {
+		b := bound
 		if c.Tier == "quick" && d.QB > 0 {
-			bound = d.QB
+			b = d.QB
 		}
 		if c.Tier == "thorough" && d.TB > 0 {
-			bound = d.TB
+			b = d.TB
 		}
-		if explore.UseHB && bound >= 2 && !c.OutOfTime() {
-			// cross-check of the happens-before state caching on this very driver: the plain
-			// search and the caching search one bound below the target (at most 2) must see the
-			// same set of observable histories; otherwise caching is switched off for this run
-			cb := min(bound-1, 2)
-			explore.UseHB = false
-			ref := explore.RunDFS(c, pool, "conc", d, cb, perTask)
-			explore.UseHB = true
-			got := explore.RunDFS(c, pool, "conc", d, cb, perTask)
-			c.Add("hb_crosscheck_runs", 1)
-			if !ref.Capped && !got.Capped && (!sameSet(ref.Hists, got.Hists) || len(ref.Outcomes) != len(got.Outcomes)) {
-				fmt.Printf("HB-CROSSCHECK-MISMATCH driver=%s bound=%d plain=%d histories caching=%d: state caching switched off\n", d.Name, cb, len(ref.Hists), len(got.Hists))
-				c.Add("hb_crosscheck_mismatch", 1)
+		return b
+	}
+	for phase := 0; phase < 2; phase++ {
+		for di, d := range drivers {
+			if !cfgSelected(d.Name) {
+				continue
+			}
+			if states[di] == nil {
+				states[di] = &dstate{completed: -1}
+			}
+			ds := states[di]
+			bound := target(d)
+			lo, hi := 0, min(bound, 1)
+			if phase == 1 {
+				lo, hi = 2, bound
+			}
+			if lo > hi || ds.stopped {
+				continue
+			}
+			// at statement granularity every point is a potential access to anything: the
+			// happens-before fingerprints cannot order them, the plain search is used
+			explore.UseHB = hbWanted && !d.Stmt && !ds.hbOff
+			if phase == 1 && explore.UseHB && !c.OutOfTime() {
+				// cross-check of the happens-before state caching on this very driver: the plain
+				// search and the caching search one bound below the target (at most 2) must see the
+				// same set of observable histories; otherwise caching is switched off for this run
+				cb := min(bound-1, 2)
 				explore.UseHB = false
-			}
-		}
-		for b := 0; b <= bound; b++ {
-			if c.OutOfTime() {
-				break
-			}
-			st := explore.RunDFS(c, pool, "conc", d, b, perTask)
-			last = st
-			if os.Getenv("VERIF_VERBOSE") != "" {
-				fmt.Printf("    %s bound=%d execs=%d pruned=%d traces=%d hists=%d capped=%v maxpoints=%d subtrees=%d t=%.1fs\n", d.Name, b, st.Execs, st.Pruned, len(st.HBTraces), len(st.Hists), st.Capped, st.MaxPoints, st.Subtrees, c.Elapsed().Seconds())
-			}
-			if st.Nondet != "" {
-				fmt.Printf("NONDETERMINISM in %s: %s\n", d.Name, st.Nondet)
-				c.Coverage["nondeterminism"] = st.Nondet
-				exh = false
-				break
-			}
-			unknown := 0
-			for _, v := range st.Viols {
-				if !reportConc(c, id, d, v) {
-					unknown++
+				ref := explore.RunDFS(c, pool, "conc", d, cb, perTask)
+				explore.UseHB = true
+				got := explore.RunDFS(c, pool, "conc", d, cb, perTask)
+				c.Add("hb_crosscheck_runs", 1)
+				if !ref.Capped && !got.Capped && (!sameSet(ref.Hists, got.Hists) || len(ref.Outcomes) != len(got.Outcomes)) {
+					fmt.Printf("HB-CROSSCHECK-MISMATCH driver=%s bound=%d plain=%d histories caching=%d: state caching switched off\n", d.Name, cb, len(ref.Hists), len(got.Hists))
+					c.Add("hb_crosscheck_mismatch", 1)
+					explore.UseHB = false
+					ds.hbOff = true
 				}
 			}
-			if unknown > 0 {
-				break
-			}
-			if st.Capped {
-				break
-			}
-			completed = b
-		}
-		// weighted search: fewer preemptions, more reorderings of who runs when the current
-		// goroutine blocks (budget units: preemption 2, choice at a blocking point 1)
-		wb := d.WQ
-		if c.Tier == "thorough" {
-			wb = d.WT
-		}
-		wdone := -1
-		var wlast *explore.DFSStats
-		if wb > 0 && last != nil && completed == bound {
-			explore.UseWeighted = true
-			for b := 2 * bound; b <= wb && !c.OutOfTime(); b++ {
+			for b := lo; b <= hi; b++ {
+				if c.OutOfTime() {
+					break
+				}
 				st := explore.RunDFS(c, pool, "conc", d, b, perTask)
-				wlast = st
+				ds.last = st
+				if os.Getenv("VERIF_VERBOSE") != "" {
+					fmt.Printf("    %s bound=%d execs=%d pruned=%d traces=%d hists=%d capped=%v maxpoints=%d subtrees=%d t=%.1fs\n", d.Name, b, st.Execs, st.Pruned, len(st.HBTraces), len(st.Hists), st.Capped, st.MaxPoints, st.Subtrees, c.Elapsed().Seconds())
+				}
 				if st.Nondet != "" {
-					fmt.Printf("NONDETERMINISM in %s (weighted): %s\n", d.Name, st.Nondet)
+					fmt.Printf("NONDETERMINISM in %s: %s\n", d.Name, st.Nondet)
 					c.Coverage["nondeterminism"] = st.Nondet
+					exh = false
+					ds.stopped = true
 					break
 				}
 				unknown := 0
@@ -208,20 +205,77 @@ func runConcChecks(c *explore.Ctx, id string, drivers []concParams, bound int, p
 					}
 				}
 				if unknown > 0 || st.Capped {
+					ds.stopped = true
 					break
 				}
-				wdone = b
+				ds.completed = b
 			}
-			explore.UseWeighted = false
-			if wdone < wb {
-				exh = false
+			if ds.completed < hi {
+				continue // out of time (or stopped): the summary below reports what was completed
 			}
-			if wlast != nil {
-				c.Add("evaluations", wlast.Execs)
-				for h := range wlast.Hists {
-					last.Hists[h] = true
+			if ds.completed < bound {
+				continue // phase 0 of a driver whose target is deeper
+			}
+			// weighted search: fewer preemptions, more reorderings of who runs when the current
+			// goroutine blocks (budget units: preemption 2, choice at a blocking point 1)
+			wb := d.WQ
+			if c.Tier == "thorough" {
+				wb = d.WT
+			}
+			if wb > 0 && ds.last != nil {
+				wdone := -1
+				var wlast *explore.DFSStats
+				explore.UseWeighted = true
+				for b := 2 * bound; b <= wb && !c.OutOfTime(); b++ {
+					st := explore.RunDFS(c, pool, "conc", d, b, perTask)
+					wlast = st
+					if st.Nondet != "" {
+						fmt.Printf("NONDETERMINISM in %s (weighted): %s\n", d.Name, st.Nondet)
+						c.Coverage["nondeterminism"] = st.Nondet
+						break
+					}
+					unknown := 0
+					for _, v := range st.Viols {
+						if !reportConc(c, id, d, v) {
+							unknown++
+						}
+					}
+					if unknown > 0 || st.Capped {
+						break
+					}
+					wdone = b
 				}
-				fmt.Printf("  %-24s weighted budget %d/%d execs=%d pruned=%d hists=%d\n", d.Name, wdone, wb, wlast.Execs, wlast.Pruned, len(wlast.Hists))
+				explore.UseWeighted = false
+				if wdone < wb {
+					exh = false
+				}
+				wdoneBy[d.Name] = wdone
+				if wlast != nil {
+					c.Add("evaluations", wlast.Execs)
+					for h := range wlast.Hists {
+						ds.last.Hists[h] = true
+					}
+					fmt.Printf("  %-24s weighted budget %d/%d execs=%d pruned=%d hists=%d\n", d.Name, wdone, wb, wlast.Execs, wlast.Pruned, len(wlast.Hists))
+				}
+			}
+		}
+	}
+	for di, d := range drivers {
+		ds := states[di]
+		if ds == nil {
+			continue
+		}
+		bound := target(d)
+		last, completed := ds.last, ds.completed
+		wb := d.WQ
+		if c.Tier == "thorough" {
+			wb = d.WT
+		}
+		wdone, ok := wdoneBy[d.Name]
+		if !ok {
+			wdone = -1
+			if wb > 0 {
+				exh = false
 			}
 		}
 		if last == nil {
